@@ -60,6 +60,19 @@ def fn_disturbed(b, f, key='disturbed'):
     return False
 
 
+def calls_new_fn(b, f):
+    """does the function call something that is new in the source of its section: a new helper (no overlay counterpart,
+    hence no contract) or a callee (function / method name) the section did not call when its proof was written?"""
+    names = getattr(b, 'new_fns', [])
+    if f is None or not names:
+        return None
+    body = '\n'.join(l for l in b.lines[f.start - 1:f.end] if not l.lstrip().startswith('/*@*/'))
+    for n in names:
+        if re.search(r'\b%s\s*\(' % re.escape(n), body) and not re.search(r'\bfn\s+%s\b' % re.escape(n), body):
+            return n
+    return None
+
+
 def repo_lines_of(b, f):
     return sum(1 for ln in range(f.start, f.end + 1) if b.origin[ln - 1][0] == 'repo')
 
@@ -298,7 +311,8 @@ def main(argv):
                     break
             if hit:
                 known_hits.append((hit, r['tag'], fd))
-            elif (r.get('hints_dropped') and fn_disturbed(b, fobj)) or fn_disturbed(b, fobj, 'structural'):
+            elif (r.get('hints_dropped') and fn_disturbed(b, fobj)) or fn_disturbed(b, fobj, 'structural') or calls_new_fn(b, fobj):
+                # (or the function now calls a helper that is new in the source and therefore has no contract)
                 # proof hints in this function are no longer reliably placed (lines added / removed / re-flowed next to
                 # them, or hints dropped): a failed obligation counts only if the replay finds a failing input
                 weak_violations.append((r['tag'], fd))
@@ -381,7 +395,7 @@ def main(argv):
             forced_replay = rp
         else:
             for u, fd in weak_violations:
-                trouble.append('unit %s fn %s: %s - but proof hints sit next to code that was added, removed or re-flowed (their placement is '
+                trouble.append('unit %s fn %s: %s - but proof hints sit next to code that was added, removed or re-flowed, or a new helper without a contract is called (their placement / the callee is '
                                'no longer certain) and the bounded replay found no failing input: undecided (see %s)' % (u, fd.fn, fd.message, rp))
     elif weak_violations:
         violations += weak_violations
